@@ -32,3 +32,8 @@ package secondary
 //@   requires typeis(payload, *errorspb.EncodedError) && payload.(*errorspb.EncodedError).Error != nil ==> complete(deref(payload.(*errorspb.EncodedError)))
 //@   ensures (!typeis(payload, *errorspb.EncodedError) || payload.(*errorspb.EncodedError).Error == nil) ==> result == nil
 //@   ensures typeis(payload, *errorspb.EncodedError) && payload.(*errorspb.EncodedError).Error != nil ==> typeis(result, *withSecondaryError) && result.(*withSecondaryError).cause == cause
+
+//@ method (*withSecondaryError).SafeDetails
+//@   props C03 C12 C07
+//@   ensures[C03] safeSeq(result)
+//@   loop 1: invariant safeSeq(details)
